@@ -748,6 +748,53 @@ static void sweep_c16(Obj &o, const Case &c, XorShift &x) {
   cur->counters["unsupported_calls"] += unsupported;
 }
 
+
+// C16, second half: unknown type tags and foreign images.  `img` is a valid image of the case's kind.
+static void c16_tags_and_foreign_images(const Case &c, const std::string &img, XorShift &x) {
+  if (img.size() < 4) return;
+  static const uint32_t known[] = {11, 114, 12, 124, 211, 214, 221, 222, 223, 3, 4, 5};
+  auto is_known = [&](uint32_t t) { for (uint32_t k : known) if (k == t) return true; return false; };
+  std::vector<uint32_t> tags = {0, 1, 2, 6, 10, 13, 113, 115, 123, 125, 126, 210, 212, 213, 215, 220, 224, 0xFFFFFFFFu, 0x80000000u};
+  for (uint32_t k : known) { tags.push_back(k | 0x100u << (8 * (x.below(3)))); tags.push_back(k | 0x80000000u); tags.push_back(k << 8); }
+  for (int i = 0; i < 12; i++) tags.push_back((uint32_t)x.next());
+  cur->state = "tags";
+  int unknown_tried = 0;
+  for (uint32_t t : tags) {
+    if (is_known(t)) continue;
+    for (int body = 0; body < 3; body++) {
+      std::string im;
+      im.append((const char *)&t, 4);
+      if (body == 0) im += img.substr(4);                       // the rest of a valid image
+      else if (body == 1) { for (int k = 0; k < 40; k++) im += (char)x.next(); }  // random bytes
+      // body 2: nothing after the tag
+      if (cur->skip("load_unknown_tag")) return;
+      StringDictionary *d = nullptr;
+      uint32_t opt = 1 + x.below(3);
+      bool ok = lib([&] { std::istringstream is(im, std::ios::in | std::ios::binary); d = StringDictionary::load(is, opt); });
+      obj_dead = false;
+      unknown_tried++;
+      if (!ok) { ev("C16", "unknown-tag-crash", "StringDictionary::load died on type tag " + std::to_string(t)); return; }
+      if (d) { ev("C16", "unknown-tag-accepted", "StringDictionary::load returned an object for type tag " + std::to_string(t) + " (body variant " + std::to_string(body) + ")"); return; }
+    }
+  }
+  cur->counters["unknown_tags_tried"] += unknown_tried;
+  // every other kind's own loader must refuse this image
+  cur->state = "foreign";
+  int foreign = 0;
+  for (int k = 0; k < K_COUNT; k++) {
+    if (k == c.p.kind) continue;
+    if (cur->skip("load_foreign_image")) return;
+    StringDictionary *d = nullptr;
+    bool ok = lib([&] { std::istringstream is(img, std::ios::in | std::ios::binary); d = load_own(k, is, 1 + x.below(3)); });
+    obj_dead = false;
+    foreign++;
+    if (!ok) { ev("C16", "foreign-image-crash", std::string(kind_names[k]) + "::load died on an image of kind " + kind_names[c.p.kind]); return; }
+    if (d) { ev("C16", "foreign-image-accepted", std::string(kind_names[k]) + "::load returned an object for an image of kind " + kind_names[c.p.kind]); return; }
+  }
+  cur->counters["foreign_loads"] += foreign;
+  if (foreign) cur->labels.insert("foreign_image_refused");
+}
+
 // ------------------------------------------------------------------ object life cycle
 static StringDictionary *do_build(const Case &c) {
   if (cur->skip("build")) { cur->conclusive = false; cur->inconclusive_reason = "excluded-by-known-finding"; return nullptr; }
@@ -1513,6 +1560,14 @@ int run_case(const uint8_t *data, size_t n, CaseCtx &ctx) {
     if (c.gi.family == 7) ctx.labels.insert("c18_big_skewed_text");
   } else if (P == "C16") {
     for_states(c, [&](Obj &o) { sweep_c16(o, c, x); });
+    {
+      cur->state = "fresh";
+      StringDictionary *d = do_build(c);
+      std::string img;
+      bool sv = d && do_save(d, img);
+      do_destroy(d);
+      if (sv) c16_tags_and_foreign_images(c, img, x);
+    }
     ctx.nontrivial = ctx.labels.count("supported_after_unsupported");
   }
   if (ctx.tainted) {
